@@ -68,140 +68,7 @@ pub assume_specification [u128::overflowing_sub] (a: u128, b: u128) -> (r: (u128
 
 
 
-// (hi << s) | (lo >> (64-s))  for u64 words, 0 < s < 64:
-//   == (hi mod 2^(64-s)) * 2^s + lo / 2^(64-s)
-pub proof fn lemma_shl_or_shr_u64(hi: u64, lo: u64, s: u32)
-    requires 0 < s < 64
-    ensures
-        ((hi << s) | (lo >> (64 - s))) as int
-            == ((hi as int) % (pow2((64 - s) as nat) as int)) * pow2(s as nat) + (lo as int) / (pow2((64 - s) as nat) as int),
-        (lo as int) / (pow2((64 - s) as nat) as int) < pow2(s as nat),
-{
-    let c: u32 = (64 - s) as u32;
-    let a = hi << s;
-    let b = lo >> c;
-    // disjoint bits: or == add
-    assert(a | b == a + b) by(bit_vector) requires a == hi << s, b == lo >> c, c == 64 - s, 0 < s < 64;
-    assert(a as int + b as int <= u64::MAX as int) by {
-        assert(a | b <= 0xffff_ffff_ffff_ffffu64) by(bit_vector);
-    }
-    // b == lo / 2^c
-    lemma_u64_shr_is_div(lo, c as u64);
-    // a == (hi & mask(c)) << s == (hi % 2^c) * 2^s
-    let m: u64 = hi & (((1u64 << c) - 1) as u64);
-    assert(hi << s == m << s) by(bit_vector) requires m == hi & (((1u64 << c) - 1) as u64), c == 64 - s, 0 < s < 64;
-    assert(m < (1u64 << c)) by(bit_vector) requires m == hi & (((1u64 << c) - 1) as u64), 0 < c < 64;
-    lemma_u64_pow2_no_overflow(c as nat);
-    lemma_u64_shl_is_mul(1, c as u64);
-    assert((1u64 << c) as int == pow2(c as nat));
-    lemma_u64_low_bits_mask_is_mod(hi, c as nat);
-    assert(low_bits_mask(c as nat) == pow2(c as nat) - 1);
-    assert(m as int == (hi as int) % (pow2(c as nat) as int));
-    // m * 2^s < 2^64
-    lemma_pow2_adds(c as nat, s as nat);
-    lemma2_to64();
-    lemma_pow2_pos(s as nat);
-    assert((m as int) * pow2(s as nat) < pow2(64)) by(nonlinear_arith)
-        requires (m as int) < pow2(c as nat), pow2(c as nat) * pow2(s as nat) == pow2(64), pow2(s as nat) > 0;
-    lemma_u64_shl_is_mul(m, s as u64);
-    assert((m << s) as int == (m as int) * pow2(s as nat));
-    // bound on b
-    lemma_pow2_pos(c as nat);
-    assert((lo as int) / (pow2(c as nat) as int) < pow2(s as nat)) by {
-        lemma_div_by_multiple_is_strongly_ordered(lo as int, pow2(64) as int, pow2(s as nat) as int, pow2(c as nat) as int);
-        lemma_div_multiples_vanish(pow2(s as nat) as int, pow2(c as nat) as int);
-        lemma_mul_is_commutative(pow2(s as nat) as int, pow2(c as nat) as int);
-    }
-}
-
-
-// u128: a << s == a * 2^s when nothing is shifted out
-pub proof fn lemma_u128_shl_is_mul(a: u128, s: u32)
-    requires s < 128, (a as int) * pow2(s as nat) < 0x1_0000_0000_0000_0000_0000_0000_0000_0000
-    ensures (a << s) as int == (a as int) * pow2(s as nat)
-    decreases s
-{
-    if s == 0 {
-        assert(a << 0u32 == a) by(bit_vector);
-        lemma2_to64();
-        assert((a as int) * 1 == a as int) by(nonlinear_arith);
-    } else {
-        let s1 = (s - 1) as u32;
-        lemma_pow2_unfold(s as nat);
-        lemma_pow2_pos(s1 as nat);
-        assert((a as int) * pow2(s1 as nat) * 2 == (a as int) * pow2(s as nat)) by(nonlinear_arith) requires pow2(s as nat) == 2 * pow2(s1 as nat);
-        assert((a as int) * pow2(s1 as nat) <= (a as int) * pow2(s as nat)) by(nonlinear_arith) requires pow2(s as nat) == 2 * pow2(s1 as nat), a as int >= 0, pow2(s1 as nat) > 0;
-        lemma_u128_shl_is_mul(a, s1);
-        let x = a << s1;
-        assert(a << s == (a << s1) << 1u32) by(bit_vector) requires s1 == s - 1, 0 < s < 128;
-        assert(x << 1u32 == x * 2) by(bit_vector) requires x < 0x8000_0000_0000_0000_0000_0000_0000_0000u128;
-    }
-}
-
-// the three leading limbs of ((x3,x2,x1,x0) << s) as integers
-pub proof fn lemma_fetch4(x3: int, x2: int, x1: int, x0: int, c: int, s2: int, hi: int, lo: int)
-    requires
-        c >= 1, s2 >= 1, B == c * s2, 0 <= x1, 0 <= x0,
-        hi == (x3 * B + x2) * s2 + x1 / c,
-        lo == (x1 % c) * s2 + x0 / c,
-    ensures
-        ({
-            let t = hi * B + lo;
-            let x4 = ((x3 * B + x2) * B + x1) * B + x0;
-            t * B <= x4 * s2 && x4 * s2 <= t * B + B - s2
-        })
-{
-    lemma_fundamental_div_mod(x1, c);
-    lemma_fundamental_div_mod(x0, c);
-    lemma_mod_bound(x0, c);
-    let t = hi * B + lo;
-    let x4 = ((x3 * B + x2) * B + x1) * B + x0;
-    let q1 = x1 / c; let r1 = x1 % c; let q0 = x0 / c; let r0 = x0 % c;
-    assert(x4 * s2 - t * B == r0 * s2) by(nonlinear_arith)
-        requires x4 == ((x3 * B + x2) * B + x1) * B + x0, t == hi * B + lo,
-                 hi == (x3 * B + x2) * s2 + q1, lo == r1 * s2 + q0, x1 == c * q1 + r1, x0 == c * q0 + r0, B == c * s2;
-    assert(0 <= r0 * s2 <= (c - 1) * s2) by(nonlinear_arith) requires 0 <= r0 <= c - 1, s2 >= 1;
-    assert((c - 1) * s2 == B - s2) by(nonlinear_arith) requires B == c * s2;
-}
-
-pub proof fn lemma_fetch3(y2: int, y1: int, y0: int, c: int, s2: int, dv: int)
-    requires c >= 1, s2 >= 1, B == c * s2, 0 <= y0, dv == (y2 * B + y1) * s2 + y0 / c,
-    ensures ({ let y3 = (y2 * B + y1) * B + y0; dv * B <= y3 * s2 && y3 * s2 <= dv * B + B - s2 })
-{
-    lemma_fundamental_div_mod(y0, c);
-    lemma_mod_bound(y0, c);
-    let q0 = y0 / c; let r0 = y0 % c;
-    let y3 = (y2 * B + y1) * B + y0;
-    assert(y3 * s2 - dv * B == r0 * s2) by(nonlinear_arith)
-        requires y3 == (y2 * B + y1) * B + y0, dv == (y2 * B + y1) * s2 + q0, y0 == c * q0 + r0, B == c * s2;
-    assert(0 <= r0 * s2 <= (c - 1) * s2) by(nonlinear_arith) requires 0 <= r0 <= c - 1, s2 >= 1;
-    assert((c - 1) * s2 == B - s2) by(nonlinear_arith) requires B == c * s2;
-}
-
-// A (to be discharged from vstd's axiom or by a full-domain Kani obligation): leading_zeros of a non-zero word
-#[verifier::external_body]
-pub proof fn lemma_lz_facts(x: u64)
-    requires x >= 1
-    ensures
-        u64_leading_zeros(x) < 64,
-        (x as int) * pow2(u64_leading_zeros(x) as nat) < B,
-        (x as int) * pow2(u64_leading_zeros(x) as nat) >= B / 2,
-{}
-
-// (a << s) | b  ==  a*2^s + b   for a 128-bit a with no bits shifted out and b < 2^s
-pub proof fn lemma_u128_shl_or(a: u128, b: u64, s: u32)
-    requires 0 < s < 64, (a as int) * pow2(s as nat) < 0x1_0000_0000_0000_0000_0000_0000_0000_0000, (b as int) < pow2(s as nat)
-    ensures ((a << s) | (b as u128)) as int == (a as int) * pow2(s as nat) + b as int
-{
-    lemma_u128_shl_is_mul(a, s);
-    lemma_u64_pow2_no_overflow(s as nat);
-    lemma_u64_shl_is_mul(1, s as u64);
-    assert((1u64 << s) as int == pow2(s as nat));
-    assert(b < (1u64 << s));
-    let x = a << s;
-    assert((x | (b as u128)) == x + (b as u128)) by(bit_vector)
-        requires x == a << s, b < (1u64 << s), 0 < s < 64, x <= 0xffff_ffff_ffff_ffff_ffff_ffff_ffff_ffffu128 - 0xffff_ffff_ffff_ffffu128 || true;
-}
+//@ include lib/shift.rs
 
 // Knuth D quotient-digit estimate from a 3-by-2 division of the (implicitly shifted) leading limbs.
 //   W  : (n+1)-limb window, W < D*B         D : n-limb divisor
